@@ -156,6 +156,65 @@ example : authorize (some "adm") (some "ka") (.database "a") (some "ka") = .ok .
 example : authorize (some "adm") (some "kb") (.database "b") (some "ka") = .error .unauthorized := by decide
 example : authorize (some "adm") (some "ka") .root (some "ka") = .error .unauthorized := by decide
 
+/-! ## Key equality must depend on the whole key -/
+
+/-- auth.rs / state.rs as they are now: `ApiKeyHash::from_key` feeds `<key>.as_bytes()` — the whole
+key, unsliced, untrimmed, unfolded — to the hasher exactly once and keeps the whole digest; `verify`
+compares the two whole digests; `constant_time_eq` refuses different lengths; every `from_key(..)`
+call site passes a plain variable. Together with collision freedom of SHA3-256 (assumed) this is
+the injectivity the theorems below need. -/
+theorem from_key_whole_key_frozen :
+    fromKeyHashesWholeKey = true ∧ verifyComparesWholeDigest = true ∧ constantTimeEqChecksLength = true ∧
+    fromKeyCallSitesPassWholeKey = true := by
+  decide
+
+/-- **key_equality_iff_injective.** The model's "digest equality = key equality" is right for a digest
+function `h` **exactly when** `h` is injective: the digest-explicit `authorizeH h` agrees with
+`authorize` on all inputs iff no two different keys share a digest. -/
+theorem key_equality_iff_injective {D : Type} [DecidableEq D] (h : String → D) :
+    (∀ (admin bound : Option String) (scope : Scope) (presented : Option String),
+      authorizeH h (admin.map h) (bound.map h) scope presented = authorize admin bound scope presented) ↔
+    (∀ a b, h a = h b → a = b) := by
+  constructor
+  · intro hall a b hab
+    have := hall (some a) none .root (some b)
+    by_cases e : a = b
+    · exact e
+    · exfalso
+      simp [authorizeH, authorize, presentedIsH, presentedIs, verify, hab, e] at this
+  · intro hinj admin bound scope presented
+    exact authorizeH_eq_authorize h hinj admin bound scope presented
+
+/-- **from_key_injective_confines.** With an injective digest the digest-explicit rule yields a
+per-database principal only for a token that is BYTE-EQUAL to the key bound to the addressed
+database (and differs from the admin key), and `Admin` only for the admin key itself — whatever
+prefixes, case or blanks the keys share. -/
+theorem from_key_injective_confines {D : Type} [DecidableEq D] (h : String → D) (hinj : ∀ a b, h a = h b → a = b)
+    (admin bound : Option String) (scope : Scope) (presented : Option String) :
+    (authorizeH h (admin.map h) (bound.map h) scope presented = .ok .database →
+      ∃ a n p, admin = some a ∧ scope = .database n ∧ presented = some p ∧ bound = some p ∧ p ≠ a) ∧
+    (authorizeH h (admin.map h) (bound.map h) scope presented = .ok .admin →
+      admin = none ∨ ∃ a, admin = some a ∧ presented = some a) := by
+  rw [authorizeH_eq_authorize h hinj]
+  exact ⟨authorize_ok_database _ _ _ _, authorize_ok_admin _ _ _ _⟩
+
+/-- **prefix_digest_breaks_confinement.** The counterexample model: with a digest that looks at the
+first 16 characters only, a tenant key sharing them with the admin key is `Admin` on the root scope,
+the key of database `a` opens database `b`, and a rotated-away key keeps working — while `authorize`
+(whole-key equality) rejects all three. -/
+theorem prefix_digest_breaks_confinement :
+    let h := prefixDigest 16
+    let adm := "0123456789abcdef:admin"
+    let ka := "0123456789abcdef:qa"
+    let kb := "0123456789abcdef:zb"
+    authorizeH h (some (h adm)) none .root (some ka) = .ok .admin ∧
+    authorize (some adm) none .root (some ka) = .error .unauthorized ∧
+    authorizeH h (some (h "x-other-admin-key")) (some (h kb)) (.database "b") (some ka) = .ok .database ∧
+    authorize (some "x-other-admin-key") (some kb) (.database "b") (some ka) = .error .unauthorized ∧
+    authorizeH h (some (h "x-other-admin-key")) (some (h "0123456789abcdef:v2")) (.database "a")
+      (some "0123456789abcdef:v1") = .ok .database := by
+  decide +kernel
+
 /-! ## Confinement -/
 
 /- `ConfinedReply n r reply` (defined in `Proofs/ServerAuth`): what a response may carry towards the
